@@ -6,10 +6,12 @@
    only at eof / before a mika close; subtitles, mika blocks and section elements consume >= 1 grapheme):
      - the hand-written loops mech_code / section / body terminate (fuel len+1), each iteration makes progress,
      - parse() returns Ok only with the whole input consumed and an empty log, otherwise a non-empty report,
-     - every range built from cursors of the source converts to (row, col) pairs inside the line table,
-     - EXCEPT that a stray mika close bracket makes `body` loop forever (C09_refuted_mika_close_loop).
-   Not proved (searched by the correspondence run): that the leaf parsers satisfy `leaf_ok`, do not panic and
-   answer in reasonable time (nested brackets cost ~4x per level: known finding exp-nesting, observed only). *)
+     - every range built from cursors of the source converts to (row, col) pairs inside the line table.
+   Not proved (searched by the correspondence run): that the leaf parsers satisfy `leaf_ok`, do not panic, do not
+   overflow the stack and answer in reasonable time.  Open findings there (observed only): exp-nesting (nested brackets
+   cost ~4x-7x per level), stack-overflow-prefix-run (a run of ~500-900 prefix operators aborts the process).
+   Five defects found by this check are fixed in /repo (fix: commits d162281, 6eb0df4, 213fdb6, 35b608b): the model
+   follows the fixed code; theorem 7 records what the first of them repaired. *)
 From Coq Require Import List Arith ZArith String.
 From MechV Require Import Base.Sexp Base.Obs Model.ParseLoop Proofs.ParseLoopP.
 Import ListNotations.
@@ -33,6 +35,17 @@ Print Assumptions C09_init_source_newline_terminated.
 Theorem C09_loc_monotone : forall gs c1 c2, c1 <= c2 -> lex_le (loc_of gs c1) (loc_of gs c2).
 Proof. exact loc_of_mono. Qed.
 Print Assumptions C09_loc_monotone.
+
+(* 1d. SourceRange::default() = 0:0-0:0 (hand-built ParseErrors before fix 6eb0df4) is outside every input and not
+       formatter-safe, whereas no range built from cursors of a newline-terminated source is of that form. *)
+Theorem C09_zero_range_outside : forall ws,
+  range_withinb ws (SR 0 0 0 0) = false /\ fmt_safeb (SR 0 0 0 0) = false /\ is_zero (SR 0 0 0 0) = true.
+Proof. exact zero_range_outside. Qed.
+Print Assumptions C09_zero_range_outside.
+
+Theorem C09_cursor_range_not_zero : forall gs a b bump, ends_nl gs -> a <= b -> is_zero (to_srange gs (CR a b bump)) = false.
+Proof. exact cursor_range_not_zero. Qed.
+Print Assumptions C09_cursor_range_not_zero.
 
 (* 2. progress_or_stop: one iteration of mech_code's loop either returns (with cursors/log in range; an Ok
       return is at the iteration's start with >= 1 statement, or at the end of input) or continues with the
@@ -62,11 +75,9 @@ Theorem C09_section_terminates : forall L, leaf_ok L -> forall i log,
 Proof. exact L_section_terminates. Qed.
 Print Assumptions C09_section_terminates.
 
-(* 5. C09_holds / parse_outcome_total: if no mika close bracket is visible to the section loop, parse() returns;
-      Ok(tree) only with the remaining input empty (cursor = len); otherwise a NON-EMPTY report whose ranges are
-      all built from cursors inside the source. *)
+(* 5. C09_holds / parse_outcome_total: parse() always returns; Ok(tree) only with the remaining input empty
+      (cursor = len); otherwise a NON-EMPTY report whose ranges are all built from cursors inside the source. *)
 Theorem C09_holds : forall L, leaf_ok L ->
-  (forall k, k < l_len L -> l_close_at L k = false) ->
   match L_parse L with
   | PTree f => f = l_len L
   | PReport rep => rep <> [] /\ Forall (Lcr_ok L) rep
@@ -82,26 +93,28 @@ Theorem C09_report_ranges_in_bounds : forall gs rep,
 Proof. exact report_ranges_in_bounds. Qed.
 Print Assumptions C09_report_ranges_in_bounds.
 
-(* 7. C09_refuted (finding mika-close-loop), general form: wherever mika_section_close matches at a position where
-      `body` starts a section (and no subtitle does), `section` returns Ok without consuming and `body` never
-      returns, for every fuel. *)
-Theorem C09_refuted_mika_close_loop_general : forall L i log,
+(* 7. what fix d162281 repaired (finding mika-close-loop, now fixed): WITHOUT body's progress check, wherever
+      mika_section_close matches at a position where `body` starts a section (and no subtitle does), `section` returns
+      Ok without consuming and `body` never returns, for every fuel — although every leaf assumption holds. *)
+Theorem C09_unguarded_body_diverges_general : forall L i log,
   i < l_len L -> l_close_at L i = true -> l_ul_subtitle L i = None ->
-  forall fuel, L_body_loop L fuel i log = None.
-Proof. exact L_body_hangs_at_close. Qed.
-Print Assumptions C09_refuted_mika_close_loop_general.
+  forall fuel, L_body_loop_unguarded L fuel i log = None.
+Proof. exact L_unguarded_body_hangs_at_close. Qed.
+Print Assumptions C09_unguarded_body_diverges_general.
 
-(* 7b. the witness: the source "⸥" (graphemes ["⸥"; "\n"]); its leaves satisfy every assumption. *)
-Theorem C09_refuted_mika_close_loop :
-  exists L, leaf_ok L /\ (forall fuel, L_body_loop L fuel 0 [] = None) /\ L_parse L = PHang.
+(* 7b. the witness: the source "⸥" (graphemes ["⸥"; "\n"]): unguarded loop diverges; the current loop yields the
+       one-entry report "Inputs since here are not parsed" at cursor 0. *)
+Theorem C09_unguarded_body_diverges :
+  exists L, leaf_ok L /\ (forall fuel, L_body_loop_unguarded L fuel 0 [] = None) /\ L_parse L = PReport [CR 0 0 true].
 Proof.
-  exists stray_leaves. split; [exact stray_leaf_ok|]. split; [exact stray_close_never_returns|exact stray_parse_hangs].
+  exists stray_leaves. split; [exact stray_leaf_ok|]. split; [exact stray_close_unguarded_never_returns|exact stray_parse_reports].
 Qed.
-Print Assumptions C09_refuted_mika_close_loop.
+Print Assumptions C09_unguarded_body_diverges.
 
 (* 8. judge soundness: an `ok` verdict on a line (case, observation) means: the parser returned a tree or a report
-      (no panic, no hang), the same both times, the harness's line table is the text's, EVERY range of the report lies
-      within the text, the consumers of the report did not panic, a tree comes with no ranges and a report is non-empty. *)
+      (no panic, no hang, no abort), the same both times, the harness's line table is the text's, EVERY range of the report
+      lies within the text, the consumers of the report did not panic and no read system call was issued (no flags), the
+      hook log (when present) satisfies the loop invariants, a tree comes with no ranges and a report is non-empty. *)
 Theorem C09_judge_sound : forall x tag,
   judge_c09 x = v_ok tag ->
   exists text o p, x = Lx [Lx [Ax "c09"%string; Qx text]; o] /\ dec_obs o = RParse p /\ C09_obs_spec text p.
@@ -109,44 +122,19 @@ Proof. exact judge_c09_sound. Qed.
 Print Assumptions C09_judge_sound.
 
 (* 9. a known-finding verdict is given only inside its class (decided from the text) and only for the predicted
-      defective behaviour: hang / parser panic / a 0:0-0:0 cause range with format_error panicking exactly when such a
-      cause is among the first 10 (everything else about the observation as the property demands) / format_error
-      panicking on an otherwise conforming observation of a text shorter than the number of errors shown. *)
+      defective behaviour: no answer within the budget on a text nested >= 6 deep / process abort on a text with a run of
+      >= 400 prefix operators.  (Both findings are observed only: the grammar is not modelled.) *)
 Theorem C09_judge_kf_narrow : forall text o id,
   judge_parse text o = v_kf id ->
-  (id = "mika-close-loop"%string /\ (o = RHang \/ o = RAbort) /\ kf_mika_close text = true) \/
-  (id = "exp-nesting"%string /\ o = RHang /\ kf_mika_close text = false /\ nest_threshold <= nest_depth text) \/
-  (id = "stack-overflow-prefix-run"%string /\ o = RAbort /\ kf_mika_close text = false /\ run_threshold <= max_prefix_run text) \/
-  (id = "ebnf-todo-panic"%string /\ exists p, o = RParse p /\ po_tag p = TgPanic /\ po_same p = true /\ kf_ebnf text = true) \/
-  (id = "empty-inline-equation"%string /\ exists p, o = RParse p /\ po_tag p = TgPanic /\ po_same p = true /\ kf_empty_eq text = true) \/
-  (id = "fence-zero-range"%string /\ exists p, o = RParse p /\ po_tag p <> TgPanic /\ kf_fence_zero text = true /\
-      existsb is_zero (po_causes p) = true /\ obs_corb text p true = true /\ flags_matchb text p = true) \/
-  (id = "fmt-count-underflow"%string /\ exists p, o = RParse p /\ po_flags p = ["fmtpanic"%string] /\
-      (byte_lenZ text < Z.min (Z.of_nat (List.length (po_causes p))) 10)%Z /\
-      C09_obs_spec text (PO (po_tag p) (po_same p) (po_causes p) (po_annots p) (po_nlines p) (po_lens p) (po_widths p) [] (po_hook p))).
+  (id = "exp-nesting"%string /\ o = RHang /\ nest_threshold <= nest_depth text) \/
+  (id = "stack-overflow-prefix-run"%string /\ o = RAbort /\ run_threshold <= max_prefix_run text).
 Proof. exact judge_kf_narrow. Qed.
 Print Assumptions C09_judge_kf_narrow.
 
-(* 10. finding fmt-count-underflow: format_error's `errors.0.len() - n` is negative exactly for texts with fewer
-       bytes than errors shown; never for texts of >= 10 bytes. *)
-Theorem C09_refuted_fmt_count_underflow : exists text nerr, (1 <= nerr)%Z /\ (fmt_count text nerr < 0)%Z.
-Proof. exact fmt_count_refuted. Qed.
-Print Assumptions C09_refuted_fmt_count_underflow.
-
-Theorem C09_fmt_count_holds : forall text nerr, (10 <= byte_lenZ text)%Z -> (0 <= fmt_count text nerr)%Z.
-Proof. exact fmt_count_holds. Qed.
-Print Assumptions C09_fmt_count_holds.
-
-(* 10b. finding fence-zero-range: the hand-built SourceRange::default() = 0:0-0:0 is outside every input and not
-        formatter-safe, whereas no range built from cursors of a newline-terminated source is of that form. *)
-Theorem C09_refuted_fence_zero_range : forall ws,
-  range_withinb ws (SR 0 0 0 0) = false /\ fmt_safeb (SR 0 0 0 0) = false /\ is_zero (SR 0 0 0 0) = true.
-Proof. exact zero_range_outside. Qed.
-Print Assumptions C09_refuted_fence_zero_range.
-
-Theorem C09_cursor_range_not_zero : forall gs a b bump, ends_nl gs -> a <= b -> is_zero (to_srange gs (CR a b bump)) = false.
-Proof. exact cursor_range_not_zero. Qed.
-Print Assumptions C09_cursor_range_not_zero.
+(* 10. format_error's count of errors not shown (errors.1.len() - min(len, 10), since fix 213fdb6) cannot underflow. *)
+Theorem C09_fmt_not_shown_nonneg : forall nerr, (0 <= nerr)%Z -> (0 <= fmt_not_shown nerr)%Z.
+Proof. exact fmt_not_shown_nonneg. Qed.
+Print Assumptions C09_fmt_not_shown_nonneg.
 
 (* 11. the line table the judge recomputes from the text bytes is the model's line table (line_widths of the
        newline-terminated grapheme list) — stated over the ASCII grapheme view (one grapheme per byte, CR LF one grapheme;
@@ -174,27 +162,26 @@ Example C09_example_locations :
 Proof. vm_compute. repeat split; reflexivity. Qed.
 Print Assumptions C09_example_locations.
 
-(* the judge on real observations: "x := [1 2" (report in range), "[" (format_error underflow), "⸥" (hang) *)
+(* the judge on observations: in-range report, out-of-range report, hang, abort, panic, a 0:0-0:0 range with a
+   panicking formatter (the behaviour before fix 6eb0df4), hook logs *)
 Example C09_example_judge :
   run_line "((c09 ""x := [1 2"") (parse err 1 (ranges (c 1 1 1 10)) 1 (linelens 9) (linewidths 9) (flags ) (info 1 10 5) (hook off)))"
     = "(ok report)"%string /\
   run_line "((c09 ""x := [1 2"") (parse err 1 (ranges (c 1 1 1 12)) 1 (linelens 9) (linewidths 9) (flags ) (info 1 10 5) (hook off)))"
     = "(bad range-outside-input ok-or-err-in-range)"%string /\
   run_line "((c09 ""["") (parse err 1 (ranges (c 1 2 1 3) (c 1 2 1 3)) 1 (linelens 1) (linewidths 1) (flags fmtpanic) (info 2 2 9) (hook off)))"
-    = "(kf fmt-count-underflow)"%string /\
-  run_line "((c09 ""\xe2\xb8\xa5"") (hang))" = "(kf mika-close-loop)"%string /\
-  run_line "((c09 ""x := 1"") (hang))" = "(bad parser-did-not-return-within-budget ok-or-err)"%string /\
+    = "(bad format_error-panicked ok-or-err-in-range)"%string /\
+  run_line "((c09 ""\xe2\xb8\xa5"") (hang))" = "(bad parser-did-not-return-within-budget ok-or-err)"%string /\
+  run_line "((c09 ""x := ((((((1))))))"") (hang))" = "(kf exp-nesting)"%string /\
   run_line "((c09 ""x := -1"") (abort -6))" = "(bad process-aborted ok-or-err)"%string /\
   run_line "((c09 ""x := 1"") (parse ok 1 (ranges ) 1 (linelens 6) (linewidths 6) (flags ) (info 0 7 1) (hook 5 (1 0 6 7) (5 6 7 7) (6 0 7 7) (7 0 7 7) (8 0 7 7))))"
     = "(ok tree)"%string /\
   run_line "((c09 ""x := 1"") (parse ok 1 (ranges ) 1 (linelens 6) (linewidths 6) (flags ) (info 0 7 1) (hook 2 (1 0 6 7) (8 3 3 7))))"
     = "(bad hook-progress-invariant-violated ok-or-err-in-range)"%string /\
   run_line "((c09 ""```mech\n<=\n```\n"") (parse err 1 (ranges (c 0 0 0 0)) 4 (linelens 7 2 3 0) (linewidths 7 2 3 0) (flags fmtpanic) (info 1 16 3) (hook off)))"
-    = "(kf fence-zero-range)"%string /\
-  run_line "((c09 ""x := (\n"") (parse err 1 (ranges (c 0 0 0 0)) 2 (linelens 6 0) (linewidths 6 0) (flags fmtpanic) (info 1 8 3) (hook off)))"
     = "(bad range-outside-input ok-or-err-in-range)"%string /\
-  run_line "((c09 ""```ebnf\nfoo\n```\n"") (parse panic 1 (ranges ) 4 (linelens 7 3 3 0) (linewidths 7 3 3 0) (flags ) (info 0 17 2) (hook off)))"
-    = "(kf ebnf-todo-panic)"%string /\
+  run_line "((c09 ""x := 1"") (parse ok 1 (ranges ) 1 (linelens 6) (linewidths 6) (flags ioread) (info 0 7 1) (hook off)))"
+    = "(bad parser-issued-read-system-calls ok-or-err-in-range)"%string /\
   run_line "((c09 ""x := 1"") (parse panic 1 (ranges ) 1 (linelens 6) (linewidths 6) (flags ) (info 0 7 1) (hook off)))"
     = "(bad parser-panicked ok-or-err-in-range)"%string.
 Proof. vm_compute. repeat split; reflexivity. Qed.
